@@ -43,8 +43,8 @@ CHECKS = {
          "Generated source trees (all types, link groups incl. special files, sockets and symlinks with several names, special bits, owners, ns mtimes, xattrs) x {whole tree, sub-directory, single file, single symlink} x option sets {chown, octal/symbolic mode, utime, xattr error handler, follow-links}. Held on the executions observed.",
          "Trusts the snapshot walker and /bin/chmod as evaluator of symbolic modes (both GNU and POSIX readings admitted where they differ); root.", "DESIGN.md §5 C13"),
  "C16": ("exploration", "runtime differential monitor: set of paths written by fs.Copy with include/exclude patterns vs naive reference filter vs fsutil.Walk with the same patterns; metadata of on-demand ancestors compared with the source directory",
-         "The trees and pattern grammar of C10, into empty and populated destinations (incl. type-conflicting obstacles at unselected paths, with and without always-replace); K1 triaged as in C10. Held on the executions observed.",
-         "Reference filter as C10.", "DESIGN.md §5 C16"),
+         "The trees and pattern grammar of C10, into empty and populated destinations (incl. type-conflicting obstacles at unselected paths, with and without always-replace), and as an ordinary user over trees with directories it may not list; K1 triaged as in C10. Held on the executions observed.",
+         "Reference filter as C10; root, and uid 1234 emulated by switching the effective uid/gid of the process.", "DESIGN.md §5 C16"),
  "C19": ("exploration", "runtime monitor: listing file decoded as little-endian length-prefixed records and compared with the STATs seen on the wire; dest minus listing compared with the projection of the source; REQ ids and notifications checked",
          "Trees (incl. listings of several 32 KiB chunks and a single stat larger than a chunk) x selectors x sources containing an entry named .fsutil-metadata x prior destinations holding a listing file/symlink/directory. Held on the executions observed.",
          "Selectors are closed under hard-link sources as the statement requires; identity model as C02.", "DESIGN.md §5 C19"),
